@@ -244,13 +244,46 @@ func (x *ctx) ghostRead(st *state, name string, callee *ssa.Function, args []val
 		return scalar(c)
 	}
 	if ak := x.alias[x.ghostKey(name)]; ak != "" && len(args) == 1 {
-		return scalar(x.readLeafHeap(st, &loc{base: args[0].t}, ak, hi.elem))
+		r := x.readLeafHeap(st, &loc{base: args[0].t}, ak, hi.elem)
+		x.assumeFieldInv(st, x.ghostKey(name), r)
+		return scalar(r)
 	}
 	t := x.ghostArr(st, name, hi)
 	for i, a := range args {
 		t = fmt.Sprintf("(select %s %s)", t, x.asTerm(a, callee.Signature.Params().At(i).Type()).s)
 	}
-	return scalar(term{t, hi.elem})
+	r := term{t, hi.elem}
+	x.assumeFieldInv(st, x.ghostKey(name), r)
+	return scalar(r)
+}
+
+// assumeFieldInv assumes the global invariant of a ghost field for the value just read.
+func (x *ctx) assumeFieldInv(st *state, key string, v term) {
+	ref := x.w.fieldInv[key]
+	if ref == nil || x.inInv {
+		return
+	}
+	sp := x.w.ssaPkgs[ref.pkg]
+	f := sp.Func(ref.fi.FnName)
+	if f == nil {
+		x.fail("field invariant function %s missing", ref.fi.FnName)
+	}
+	x.inInv = true
+	g := x.evalSpecFn(st, f, nil, []val{scalar(v)})
+	x.inInv = false
+	st.define(g.t.s)
+}
+
+func (x *ctx) fieldInvGoal(st *state, key string, v term) (string, bool) {
+	ref := x.w.fieldInv[key]
+	if ref == nil {
+		return "", false
+	}
+	f := x.w.ssaPkgs[ref.pkg].Func(ref.fi.FnName)
+	x.inInv = true
+	g := x.evalSpecFn(st, f, nil, []val{scalar(v)})
+	x.inInv = false
+	return g.t.s, true
 }
 
 // ghostWrite stores v at ghost[name](args).
@@ -553,6 +586,17 @@ func (x *ctx) contractCall(st *state, fr *frame, con *Contract, callee *ssa.Func
 		l2 := x.applyClosure(st, p.l1, nil, env)
 		r := x.applyClosure(st, l2, p.cl.P3, renv)
 		st.assume(r.t.s)
+	}
+	if con.Flags["fresh"] && ret.t.s != "" && ret.t.srt == sRef {
+		// freshly allocated result: differs from every reference visible in the caller
+		x.assumeFreshRef(st, ret.t)
+		seenT := map[string]bool{}
+		for _, v := range fr.regs {
+			if v.t.s != "" && v.t.srt == sRef && !seenT[v.t.s] && v.t.s != ret.t.s {
+				seenT[v.t.s] = true
+				st.define(not(eq(ret.t, v.t)))
+			}
+		}
 	}
 	outs := []outcome{{st: st, ret: ret}}
 	if con.Flags["may-panic"] {
